@@ -150,3 +150,55 @@ Proof.
   apply Permutation.Permutation_map. apply Permutation.Permutation_sym. apply workers_sort_perm. exact N.
 Qed.
 Print Assumptions C11_archive_tick_all.
+
+(* ---- the eligibility tests of the model ARE the python source (translation + proof) ----
+   Gen/FarmGen.v is regenerated on every run from dawgie/pl/farm.py (Hand._reg,
+   the status branch of Hand._process, something_to_do, _cluster_sort) by the
+   fail-closed translator tools/translate/farm2coq.py.  A registration / a
+   status poll of the model does exactly the effects the source lists; the
+   dispatch guard is `is_pipeline_active()` alone (the waiting_on_crew conjunct
+   is dead code: `_agency` is the non-empty list [None]); the queue order is the
+   source's comparator.  (Qualified names on purpose: nothing is imported.) *)
+From DV Require Gen.FarmGen Proofs.FarmGenEq.
+
+Theorem C11_reg_is_source : forall w h rev_ok s,
+  reg w h rev_ok s =
+  if FarmGenEq.registers (FarmGen.hand_reg rev_ok)
+  then (set_farm s (jobs s) (cluster s) (busy s) (workers s ++ [(w, h)]) (inflight s), [])
+  else (s, match FarmGenEq.reply_of w (FarmGen.hand_reg rev_ok) with Some o => [o] | None => [] end).
+Proof. exact FarmGenEq.reg_gen_eq. Qed.
+Print Assumptions C11_reg_is_source.
+
+Theorem C11_poll_is_source : forall w rev_ok s,
+  exists o, FarmGenEq.reply_of w (FarmGen.hand_status rev_ok (active s)) = Some o /\
+            poll w rev_ok s = (s, [o]).
+Proof. exact FarmGenEq.poll_gen_eq. Qed.
+Print Assumptions C11_poll_is_source.
+
+Theorem C11_dispatch_guard_is_source : forall c s crew,
+  FarmGen.something_to_do crew (active s) = active s /\
+  (FarmGen.something_to_do crew (active s) = false -> dispatch c s = (s, [])).
+Proof.
+  intros c s crew. split; [apply FarmGenEq.something_to_do_gen_eq|apply FarmGenEq.dispatch_guard_gen_eq].
+Qed.
+Print Assumptions C11_dispatch_guard_is_source.
+
+Theorem C11_cluster_sort_is_source : forall cpu l, (forall a b, cpu a = cpu b) ->
+  FarmGen.cluster_sort cpu l = cluster_sort l.
+Proof. exact FarmGenEq.cluster_sort_gen_eq. Qed.
+Print Assumptions C11_cluster_sort_is_source.
+
+Example C11_source_example :
+  FarmGen.hand_reg false = [FarmGen.ESendAbort; FarmGen.EClose] /\
+  FarmGen.hand_status true false = [FarmGen.ESendAbort; FarmGen.EClose] /\
+  FarmGen.hand_status true true = [FarmGen.ESendProceed; FarmGen.EClose] /\
+  FarmGen.something_to_do true true = true /\
+  map m_rid (FarmGen.cluster_sort (fun _ => 0%Z)
+               [ {| m_job := 0; m_tgt := 1; m_rid := 5%Z; m_fac := Task |};
+                 {| m_job := 1; m_tgt := 1; m_rid := 2%Z; m_fac := Task |};
+                 {| m_job := 2; m_tgt := 1; m_rid := 5%Z; m_fac := Task |} ]) = [2%Z; 5%Z; 5%Z] /\
+  (* with insights the cheaper unit of the same run goes first *)
+  map m_job (FarmGen.cluster_sort (fun m => if Nat.eqb (m_job m) 0 then 9%Z else 1%Z)
+               [ {| m_job := 0; m_tgt := 1; m_rid := 5%Z; m_fac := Task |};
+                 {| m_job := 2; m_tgt := 1; m_rid := 5%Z; m_fac := Task |} ]) = [2; 0].
+Proof. vm_compute. repeat split; reflexivity. Qed.
